@@ -1,0 +1,15 @@
+//go:build verif
+
+package dataframe
+
+// VerifGate is a verification hook, compiled in only with the build tag "verif".
+// When set, a row-wise Apply worker calls it immediately before ("before-send")
+// and immediately after ("after-send") it sends the result of a row, so that a
+// test harness can force any completion order deterministically.
+var VerifGate func(phase string, row int)
+
+func verifGate(phase string, row int) {
+	if g := VerifGate; g != nil {
+		g(phase, row)
+	}
+}
